@@ -163,7 +163,7 @@ func (r *Router) match(method, path string) (rt *Route, ps Params) {
 	}
 
 	// find in cached routes
-	if r.enableCaching {
+	if r.enableCaching && r.cachedRoutes != nil {
 		route, ok := r.cachedRoutes.Get(method + path)
 		if ok {
 			return route, route.params
@@ -203,7 +203,7 @@ func (r *Router) match(method, path string) (rt *Route, ps Params) {
 
 // cache dynamic Params route when EnableRouteCache is true
 func (r *Router) cacheDynamicRoute(key string, ps Params, route *Route) {
-	if !r.enableCaching {
+	if !r.enableCaching || r.cachedRoutes == nil {
 		return
 	}
 
